@@ -1694,6 +1694,36 @@ def gen_data():
                 st = ["loop", st, ["break"]] if _ % 2 else ["if", ["ifs", ["single", lit("bool", 1)], ["ifbody", st], ["noelse"], ["noelif"]]]
             f = ["fn", g.ident("f"), ["params"], ["prim", "i32"], ["body", st, ["ret", lit("i32", 1)]]]
             out.append((["program", two, f], {"stream": "data", "family": "equal-ext-leaves", "depth": depth, "site": site}))
+    # one name in every namespace at once (round 18: constants and functions looked up in one table):
+    # a struct, a constant, a function, its parameter and a local all called N; constant before and
+    # after the function
+    for nm_ in ("N", "f", "x.0"):
+        for order in (0, 1):
+            g = Gen(0)
+            st = ["struct", g.ident(nm_), ["attr", g.ident(nm_), ["prim", "u8"]]]
+            cst = ["const", g.ident(nm_), ["prim", "u8"], ["cexpr", ["cval", ["pv", "u8", 1]]]]
+            fn_ = ["fn", g.ident(nm_), ["params", [g.ident(nm_), ["prim", "u8"]]], ["prim", "u8"],
+                   ["body", ["let", g.ident("b"), 0, ["noty"], ["expr", ["name", g.ident(nm_)]]], ["ret", ["expr", ["name", g.ident("b")]]]]]
+            caller = ["fn", g.ident("caller"), ["params"], ["prim", "u8"],
+                      ["body", ["ret", ["expr", ["call", g.ident(nm_), ["expr", ["name", g.ident(nm_)]]]]]]]
+            tops = [st, cst, fn_, caller] if order == 0 else [fn_, caller, cst, st]
+            out.append((["program"] + tops, {"stream": "data", "family": "one-name-everywhere", "name": nm_, "order": order}))
+    # no function-level return, but returns nested in the blocks before / inside a closing loop or if
+    for k in range(6):
+        g = Gen(0)
+        c = lambda: ["single", ["expr", ["name", g.ident("c")]]]
+        r1 = lambda v: ["ret", lit("i8", v)]
+        ifret = ["if", ["ifs", c(), ["ifbody", r1(10)], ["noelse"], ["noelif"]]]
+        body = [
+            [ifret, ["loop", ["let", g.ident("k"), 0, ["noty"], lit("i8", 1)], ["break"]]],
+            [["loop", ["if", ["ifs", c(), ["ifbody", r1(1)], ["noelse"], ["noelif"]]], ["break"]]],
+            [["if", ["ifs", c(), ["ifbody", r1(1)], ["else", ["ifbody", r1(2)]], ["noelif"]]]],
+            [["loop", r1(1)]],
+            [ifret, ["if", ["ifs", c(), ["ifbody", ["let", g.ident("k"), 0, ["noty"], lit("i8", 1)]], ["noelse"], ["noelif"]]]],
+            [["loop", ["loop", r1(1)], ["break"]], ["loop", ["break"]]],
+        ][k]
+        f = ["fn", g.ident("f"), ["params", [g.ident("c"), ["prim", "bool"]]], ["prim", "i8"], ["body"] + body]
+        out.append((["program", f], {"stream": "data", "family": "nested-returns-only", "k": k}))
     # concatenated keys
     U = lambda n, attrs: ("u", n, attrs)
     P_ = lambda x: ("p", x)
